@@ -544,6 +544,7 @@ type PathResult struct {
 	Switches int
 	Threads  int
 	Forks    map[string]int
+	Touched  []string
 }
 
 type Explorer struct {
@@ -745,5 +746,8 @@ func runPath(P *Program, cfg *RunConfig, s *Solver, harness string, prefix []Dec
 		res.Funcs = append(res.Funcs, fn.String())
 	}
 	sort.Strings(res.Funcs)
+	for k := range in.touched {
+		res.Touched = append(res.Touched, k)
+	}
 	return res, p.alts
 }
